@@ -369,12 +369,17 @@ fn all_scripts(mi: usize, mp: usize) -> Vec<Script> {
 
 pub type VioMap = Mutex<BTreeMap<String, (usize, String, Value, u64)>>;
 
-pub fn record_violation(vm: &VioMap, key: String, rank: usize, what: String, replay: Value) {
+/// Keep, per canonical key, the smallest failing case (rank, then JSON text as a deterministic
+/// tie-break) so the reported sample does not depend on thread scheduling.
+pub fn record_violation(vm: &VioMap, key: String, rank: usize, make: impl FnOnce() -> (String, Value)) {
     let mut m = vm.lock().unwrap();
     let e = m.entry(key).or_insert((usize::MAX, String::new(), Value::Null, 0));
     e.3 += 1;
-    let better = rank < e.0 || (rank == e.0 && replay.to_string() < e.2.to_string());
-    if better {
+    if rank > e.0 {
+        return;
+    }
+    let (what, replay) = make();
+    if rank < e.0 || replay.to_string() < e.2.to_string() {
         e.0 = rank;
         e.1 = what;
         e.2 = replay;
@@ -445,8 +450,7 @@ pub fn run(rep: &mut Report) {
                             &vm,
                             format!("C15:{k}"),
                             rank,
-                            format!("{d}; scripts {:?}", scripts.iter().map(script_str).collect::<Vec<_>>()),
-                            case_json(&scripts),
+                            || (format!("{d}; scripts {:?}", scripts.iter().map(script_str).collect::<Vec<_>>()), case_json(&scripts)),
                         );
                     }
                 }
